@@ -1,6 +1,416 @@
-//! end-to-end stream (filled in below)
-use snel_harness::out::Args;
-pub fn run(_a: &Args) {
-    eprintln!("e2e stream not built yet");
-    std::process::exit(2);
+//! End-to-end stream: `QUERY a FOLLOWED BY|PRECEDED BY b LINKED BY k USING TIME t …` through
+//! parse_command + dispatch_command of a real engine (child process, several shards, events in
+//! memory and in flushed segments). Every case uses its own pair of event types in a shared
+//! session. Oracle: the brute-force statement of C15 on the generated events. Where the answer
+//! is fully determined (no RETURN clause, distinct times inside every link group and distinct
+//! earliest times across groups) the emitted pairs are also compared with the Lean model
+//! (`prefilter` op: sub-queries deliver rows passing their projected WHERE, one zone per type);
+//! other cases put `skip` on both sides.
+use super::{oracle, spec_rows, Case, Col, Lit, Op, Zone, E};
+use snel_harness::enc::hexs;
+use snel_harness::out::{Args, Stream};
+use snel_harness::rng::Rng;
+use snel_harness::sys::{Reply, Session, SysCfg};
+use std::collections::{BTreeMap, BTreeSet, HashMap};
+
+#[derive(Clone, Debug)]
+struct Ev {
+    b: bool,
+    ctx: String,
+    k: Option<i64>,
+    t: i64,
+    x: i64,
+    s: String,
+    id: i64,
+}
+
+fn gen_where(r: &mut Rng, ta: &str, tb: &str, depth: u32) -> E {
+    if depth > 0 && r.chance(2, 5) {
+        let l = Box::new(gen_where(r, ta, tb, depth - 1));
+        let rr = Box::new(gen_where(r, ta, tb, depth - 1));
+        return if r.chance(1, 2) { E::And(l, rr) } else { E::Or(l, rr) };
+    }
+    let ty = match r.below(10) {
+        0..=3 => ta,
+        4..=8 => tb,
+        _ => "zzother",
+    };
+    // only operators the plain query path evaluates exactly on every storage tier (C02 owns !=, NOT, IN)
+    if r.chance(1, 4) {
+        E::Cmp(format!("{ty}.s"), Op::Eq, Lit::S(r.pick(&["u", "v", "ab"]).to_string()))
+    } else {
+        E::Cmp(format!("{ty}.x"), *r.pick(&[Op::Eq, Op::Gt, Op::Gte, Op::Lt, Op::Lte]), Lit::I(r.range(0, 4)))
+    }
+}
+
+/// the WHERE a per-type sub-query gets (`transform_where_clause_for_event_type`)
+fn project(e: &E, ty: &str) -> Option<E> {
+    let leaf = |f: &str| -> Option<String> {
+        match f.split_once('.') {
+            Some((ev, name)) => (ev == ty).then(|| name.to_string()),
+            None => Some(f.to_string()),
+        }
+    };
+    match e {
+        E::Cmp(f, op, l) => leaf(f).map(|f| E::Cmp(f, *op, l.clone())),
+        E::InI(f, v) => leaf(f).map(|f| E::InI(f, v.clone())),
+        E::InS(f, v) => leaf(f).map(|f| E::InS(f, v.clone())),
+        E::And(l, r) => match (project(l, ty), project(r, ty)) {
+            (Some(a), Some(b)) => Some(E::And(Box::new(a), Box::new(b))),
+            (Some(a), None) | (None, Some(a)) => Some(a),
+            (None, None) => None,
+        },
+        E::Or(l, r) => match (project(l, ty), project(r, ty)) {
+            (Some(a), Some(b)) => Some(E::Or(Box::new(a), Box::new(b))),
+            (Some(a), None) | (None, Some(a)) => Some(a),
+            (None, None) => None,
+        },
+        E::Not(x) => project(x, ty).map(|x| E::Not(Box::new(x))),
+    }
+}
+
+/// ids the plain query `QUERY ty WHERE <projected>` returns: what the sequence sub-query delivers
+fn delivered(s: &mut Session, ty: &str, wh: &Option<E>) -> Option<BTreeSet<i64>> {
+    let q = match wh.as_ref().and_then(|e| project(e, ty)) {
+        Some(e) => format!("QUERY {ty} WHERE {}", e.text()),
+        None => format!("QUERY {ty}"),
+    };
+    let r = s.cmd(&q)?;
+    if !r.ok() {
+        return None;
+    }
+    Some(r.col("id").iter().filter_map(|v| v.as_i64()).collect())
+}
+
+fn zone_of(evs: &[&Ev]) -> Zone {
+    // what batches_to_zones builds: the time field typed i64, every other payload column as text
+    Zone {
+        cols: vec![
+            ("context_id".into(), Col::S(evs.iter().map(|e| e.ctx.clone()).collect())),
+            ("t".into(), Col::I(evs.iter().map(|e| Some(e.t)).collect())),
+            ("k".into(), Col::S(evs.iter().map(|e| e.k.map(|k| k.to_string()).unwrap_or_else(|| "null".into())).collect())),
+            ("x".into(), Col::S(evs.iter().map(|e| e.x.to_string()).collect())),
+            ("s".into(), Col::S(evs.iter().map(|e| e.s.clone()).collect())),
+            ("id".into(), Col::S(evs.iter().map(|e| e.id.to_string()).collect())),
+        ],
+    }
+}
+
+/// zone for the oracle: null link stays absent
+fn spec_zone_of(evs: &[&Ev]) -> Zone {
+    Zone {
+        cols: vec![
+            ("context_id".into(), Col::S(evs.iter().map(|e| e.ctx.clone()).collect())),
+            ("t".into(), Col::I(evs.iter().map(|e| Some(e.t)).collect())),
+            ("k".into(), Col::I(evs.iter().map(|e| e.k).collect())),
+            ("x".into(), Col::I(evs.iter().map(|e| Some(e.x)).collect())),
+            ("s".into(), Col::S(evs.iter().map(|e| e.s.clone()).collect())),
+            ("id".into(), Col::I(evs.iter().map(|e| Some(e.id)).collect())),
+        ],
+    }
+}
+
+fn wait_visible(s: &mut Session, ty: &str, n: usize) -> bool {
+    for _ in 0..200 {
+        match s.cmd(&format!("QUERY {ty} RETURN [id]")) {
+            Some(r) if r.ok() && r.rows.len() >= n => return true,
+            Some(_) => std::thread::sleep(std::time::Duration::from_millis(10)),
+            None => return false,
+        }
+    }
+    n == 0
+}
+
+fn pairs_of(r: &Reply, preceded: bool, ta: &str, tb: &str, ia: &HashMap<i64, usize>, ib: &HashMap<i64, usize>) -> Result<Vec<(usize, usize)>, String> {
+    if r.rows.len() % 2 != 0 {
+        return Err(format!("odd number of rows: {}", r.rows.len()));
+    }
+    let ty = r.col("event_type");
+    let id = r.col("id");
+    if r.rows.is_empty() {
+        return Ok(vec![]);
+    }
+    if id.len() != r.rows.len() {
+        return Err("no id column".into());
+    }
+    let mut out = vec![];
+    for i in (0..r.rows.len()).step_by(2) {
+        let (t0, t1) = (ty[i].as_str().unwrap_or(""), ty[i + 1].as_str().unwrap_or(""));
+        let (e0, e1) = if preceded { (tb, ta) } else { (ta, tb) };
+        if t0 != e0 || t1 != e1 {
+            return Err(format!("rows {i},{} have types {t0},{t1}", i + 1));
+        }
+        let (i0, i1) = (id[i].as_i64().ok_or("id not int")?, id[i + 1].as_i64().ok_or("id not int")?);
+        let (ida, idb) = if preceded { (i1, i0) } else { (i0, i1) };
+        out.push((*ia.get(&ida).ok_or("unknown a id")?, *ib.get(&idb).ok_or("unknown b id")?));
+    }
+    Ok(out)
+}
+
+pub fn run(a: &Args) {
+    let mut s = Stream::create(&a.out, "e2e");
+    let root = a.out.join("c15-e2e-sys");
+    let _ = std::fs::remove_dir_all(&root);
+    let mut r0 = Rng::for_case(a.seed, "e2e-cfg", 0);
+    let cfg = SysCfg { shards: 1 + r0.below(3) as usize, event_per_zone: 1 + r0.below(3) as usize, fill_factor: 1 + r0.below(2) as usize, ..SysCfg::default() };
+    s.tally(&format!("cfg:shards={},epz={},ff={}", cfg.shards, cfg.event_per_zone, cfg.fill_factor));
+    let mut sess = Session::start(&root, &cfg);
+    let mut next_id = 1i64;
+    for i in 0..a.cases {
+        let mut r = Rng::for_case(a.seed, "e2e", i);
+        if a.only.is_some_and(|o| o != i) {
+            continue;
+        }
+        let (ta, tb) = (format!("sa{i}"), format!("sb{i}"));
+        let preceded = r.chance(2, 5);
+        let distinct_times = r.chance(3, 5);
+        let na = r.below(7) as usize;
+        let nb = r.below(7) as usize;
+        let nullable = r.chance(1, 4);
+        let mut used: BTreeSet<i64> = BTreeSet::new();
+        let mut evs: Vec<Ev> = vec![];
+        for j in 0..na + nb {
+            let mut t = r.range(0, if distinct_times { 60 } else { 6 });
+            while distinct_times && used.contains(&t) {
+                t = r.range(0, 60);
+            }
+            used.insert(t);
+            evs.push(Ev {
+                b: j >= na,
+                ctx: format!("c{}", r.below(4)),
+                k: if nullable && r.chance(1, 4) { None } else { Some(1 + r.below(3) as i64 + if r.chance(1, 10) { 3 } else { 0 }) },
+                t,
+                x: r.range(0, 4),
+                s: r.pick(&["u", "v", "ab"]).to_string(),
+                id: next_id,
+            });
+            next_id += 1;
+        }
+        let wh = if r.chance(1, 2) { let d = r.below(3) as u32; Some(gen_where(&mut r, &ta, &tb, d)) } else { None };
+        let limit = if r.chance(1, 4) { Some(r.below(5) as usize) } else { None };
+        // (a RETURN list with two or more payload fields comes back with permuted cells — C07/C20 —
+        // so the only RETURN variants here are the ones that omit the link or the time field)
+        let ret: Option<Vec<&str>> = match r.below(10) {
+            0 => Some(match r.below(3) {
+                0 | 1 => vec!["id"],
+                _ => vec!["id", "k"],
+            }),
+            _ => None,
+        };
+        let ret_defect = ret.as_ref().is_some_and(|l| !l.contains(&"k") || !l.contains(&"t"));
+
+        // ---- drive the engine
+        let ktype = if nullable { "int | null" } else { "int" };
+        let mut dead = false;
+        for ty in [&ta, &tb] {
+            let d = format!("DEFINE {ty} FIELDS {{ k: \"{ktype}\", t: \"datetime\", x: \"int\", s: \"string\", id: \"int\" }}");
+            match sess.cmd(&d) {
+                Some(rp) if rp.ok() => {}
+                _ => dead = true,
+            }
+        }
+        let mut order: Vec<usize> = (0..evs.len()).collect();
+        r.shuffle(&mut order);
+        let mut flushes = 0;
+        for &j in &order {
+            let e = &evs[j];
+            let k = e.k.map(|k| k.to_string()).unwrap_or_else(|| "null".into());
+            let c = format!(
+                "STORE {} FOR {} PAYLOAD {{\"k\":{k},\"t\":{},\"x\":{},\"s\":\"{}\",\"id\":{}}}",
+                if e.b { &tb } else { &ta }, e.ctx, e.t, e.x, e.s, e.id
+            );
+            match sess.cmd(&c) {
+                Some(rp) if rp.ok() => {}
+                Some(rp) => {
+                    s.oracle_fail(i, "-", &format!("STORE rejected: {} -> {}", c, rp.raw));
+                    dead = true;
+                }
+                None => dead = true,
+            }
+            if r.chance(1, 6) {
+                let _ = sess.cmd("FLUSH");
+                flushes += 1;
+            }
+        }
+        if dead || !wait_visible(&mut sess, &ta, na) || !wait_visible(&mut sess, &tb, nb) {
+            s.tally("infra:session-lost-or-store-invisible");
+            s.case("skip", "skip", false);
+            s.oracle_fail(i, "-", "stored events did not become visible / session died");
+            if sess.dead {
+                sess = Session::start(&root, &cfg);
+            }
+            continue;
+        }
+        let mut q = format!("QUERY {ta} {} {tb} LINKED BY k USING TIME t", if preceded { "PRECEDED BY" } else { "FOLLOWED BY" });
+        if let Some(e) = &wh {
+            q.push_str(&format!(" WHERE {}", e.text()));
+        }
+        if let Some(l) = &ret {
+            q.push_str(&format!(" RETURN [{}]", l.join(", ")));
+        }
+        let q_unl = q.clone();
+        if let Some(l) = limit {
+            q.push_str(&format!(" LIMIT {l}"));
+        }
+        let rep = sess.cmd(&q);
+        let rep_unl = if limit.is_some() { sess.cmd(&q_unl) } else { None };
+        let del_a = delivered(&mut sess, &ta, &wh);
+        let del_b = delivered(&mut sess, &tb, &wh);
+
+        // ---- specification side
+        let eva: Vec<&Ev> = evs.iter().filter(|e| !e.b).collect();
+        let evb: Vec<&Ev> = evs.iter().filter(|e| e.b).collect();
+        let ia: HashMap<i64, usize> = eva.iter().enumerate().map(|(n, e)| (e.id, n)).collect();
+        let ib: HashMap<i64, usize> = evb.iter().enumerate().map(|(n, e)| (e.id, n)).collect();
+        let ra = spec_rows(&[spec_zone_of(&eva)]);
+        let rb = spec_rows(&[spec_zone_of(&evb)]);
+        s.tally(if preceded { "link:preceded" } else { "link:followed" });
+        s.tally(if wh.is_some() { "where:some" } else { "where:none" });
+        s.tally(if limit.is_some() { "limit:some" } else { "limit:none" });
+        s.tally(match (&ret, ret_defect) {
+            (None, _) => "return:none",
+            (Some(_), false) => "return:with-link-and-time",
+            (Some(_), true) => "return:omits-link-or-time",
+        });
+        s.tally_n("events", evs.len() as u64);
+        s.tally_n("flush_commands", flushes);
+        if evs.iter().any(|e| e.k.is_none()) {
+            s.tally("has-null-link");
+        }
+
+        let parsed = match &rep {
+            Some(rp) if rp.ok() => pairs_of(rp, preceded, &ta, &tb, &ia, &ib),
+            Some(rp) => Err(format!("status {} {}", rp.status_class(), rp.message)),
+            None => Err("child died".into()),
+        };
+        let parsed_unl = match (&rep_unl, limit) {
+            (Some(rp), Some(_)) if rp.ok() => pairs_of(rp, preceded, &ta, &tb, &ia, &ib).ok(),
+            _ => None,
+        };
+        let pairs = match parsed {
+            Ok(p) => p,
+            Err(e) => {
+                s.case("skip", "skip", false);
+                let class = if ret_defect { "return-omits-link-or-time" } else { "-" };
+                s.tally(&format!("oracle-fail:{class}"));
+                s.oracle_fail(i, class, &format!("{e} | {q}"));
+                if sess.dead {
+                    sess = Session::start(&root, &cfg);
+                }
+                continue;
+            }
+        };
+        s.tally_n("pairs", pairs.len() as u64);
+        // identical pair returned more than once: an a-event was delivered twice by its sub-query
+        // (visible from the passive buffer and from the segment while a flush is in flight)
+        let dedup = |v: &Vec<(usize, usize)>| -> Vec<(usize, usize)> {
+            let mut seen = BTreeSet::new();
+            v.iter().cloned().filter(|p| seen.insert(*p)).collect()
+        };
+        let has_dups = dedup(&pairs).len() != pairs.len() || parsed_unl.as_ref().is_some_and(|u| dedup(u).len() != u.len());
+        let raw_pairs = pairs.clone();
+        let pairs = dedup(&pairs);
+        let parsed_unl = if has_dups { None } else { parsed_unl };
+        if has_dups {
+            s.tally("oracle-fail:duplicate-pair");
+            s.oracle_fail(i, "duplicate-pair", &format!("the same pair is returned more than once: {raw_pairs:?} | {q}"));
+        }
+
+        // ---- what the sub-queries delivered vs. the specification's filter (C02's subject)
+        let spec_a: BTreeSet<i64> = ra.iter().zip(eva.iter()).filter(|(row, _)| super::side(&wh, &ta, row)).map(|(_, e)| e.id).collect();
+        let spec_b: BTreeSet<i64> = rb.iter().zip(evb.iter()).filter(|(row, _)| super::side(&wh, &tb, row)).map(|(_, e)| e.id).collect();
+        let (del_a, del_b) = match (del_a, del_b) {
+            (Some(x), Some(y)) => (x, y),
+            _ => {
+                s.case("skip", "skip", false);
+                s.oracle_fail(i, "-", &format!("plain per-type query failed | {q}"));
+                continue;
+            }
+        };
+        let subquery_differs = del_a != spec_a || del_b != spec_b;
+        if subquery_differs {
+            s.tally("subquery-filter-differs-from-spec");
+        }
+
+        // ---- model comparison where the answer is determined: the matcher on the delivered rows
+        let key = |e: &Ev| e.k.map(|k| format!("i64:{k}")).unwrap_or_else(|| "str:null".into());
+        let da: Vec<&Ev> = eva.iter().cloned().filter(|e| del_a.contains(&e.id)).collect();
+        let db: Vec<&Ev> = evb.iter().cloned().filter(|e| del_b.contains(&e.id)).collect();
+        let mut group_times: BTreeMap<(String, bool), Vec<i64>> = BTreeMap::new();
+        let mut earliest: BTreeMap<String, i64> = BTreeMap::new();
+        for e in da.iter().chain(db.iter()) {
+            group_times.entry((key(e), e.b)).or_default().push(e.t);
+            let en = earliest.entry(key(e)).or_insert(e.t);
+            *en = (*en).min(e.t);
+        }
+        let case = Case {
+            preceded,
+            tf: "t".into(),
+            lf: "k".into(),
+            ty_a: ta.clone(),
+            ty_b: tb.clone(),
+            limit,
+            wh: wh.clone(),
+            za: if da.is_empty() { vec![] } else { vec![zone_of(&da)] },
+            zb: if db.is_empty() { vec![] } else { vec![zone_of(&db)] },
+            with_evaluator: true,
+        };
+        let ties_in_group = group_times.values().any(|v| {
+            let mut w = v.clone();
+            w.sort();
+            w.dedup();
+            w.len() != v.len()
+        });
+        let mut ev: Vec<i64> = earliest.values().cloned().collect();
+        ev.sort();
+        let n_ev = ev.len();
+        ev.dedup();
+        let determined = ret.is_none() && !ties_in_group && ev.len() == n_ev && !has_dups;
+        if determined {
+            s.tally("compared-with-model");
+            let order: Vec<String> = earliest.keys().cloned().collect();
+            let line = super::op_line("match", &case, &order);
+            let pos_a: HashMap<i64, usize> = da.iter().enumerate().map(|(n, e)| (e.id, n)).collect();
+            let pos_b: HashMap<i64, usize> = db.iter().enumerate().map(|(n, e)| (e.id, n)).collect();
+            let mut t = vec!["ok".to_string(), pairs.len().to_string()];
+            for &(pa, pb) in &pairs {
+                let (xa, xb) = (pos_a.get(&eva[pa].id).map(|n| n.to_string()).unwrap_or("?".into()), pos_b.get(&evb[pb].id).map(|n| n.to_string()).unwrap_or("?".into()));
+                t.push(if preceded { format!("0.{xb}>0.{xa}") } else { format!("0.{xa}>0.{xb}") });
+            }
+            s.case(&line, &t.join(" "), !pairs.is_empty());
+        } else {
+            s.tally("not-compared:ties-or-return");
+            s.case("skip", "skip", false);
+        }
+
+        // ---- oracle
+        let v = oracle(preceded, "t", "k", &ta, &tb, &wh, limit, &ra, &rb, &pairs, parsed_unl.as_deref(), true, !(has_dups && limit.is_some()));
+        s.tally_n("oracle:a_events_judged", v.judged_a as u64);
+        if v.failures.is_empty() {
+            s.oracle_ok();
+        } else {
+            let mut by_class: BTreeMap<String, String> = BTreeMap::new();
+            for (cl, d) in v.failures {
+                let cl = if ret_defect {
+                    "return-omits-link-or-time".to_string()
+                } else if subquery_differs && cl != "null-link-grouped" {
+                    "subquery-filter-differs".to_string()
+                } else {
+                    cl
+                };
+                by_class.entry(cl).or_insert(d);
+            }
+            for (cl, d) in by_class {
+                s.tally(&format!("oracle-fail:{cl}"));
+                let data: Vec<String> = evs
+                    .iter()
+                    .map(|e| format!("{}{}:k={:?},t={},x={},s={}", if e.b { "b" } else { "a" }, e.id, e.k, e.t, e.x, e.s))
+                    .collect();
+                s.oracle_fail(i, &cl, &format!("{d} | {q} | {} | answer {:?}", data.join(" "), pairs));
+            }
+        }
+        let _ = hexs;
+    }
+    sess.shutdown();
+    s.finish();
 }
